@@ -461,7 +461,8 @@ def run_tabs(ctx, shard, tun):
                 # the narrowest decides)
                 Bs = [tab.beat_width(l) for l in ml]
                 B = None if not Bs or any(x is None for x in Bs) else min(Bs)
-                if not in_domain(alllens, B, opens):         # (the entry lengths are the same for a twin track)
+                # (a render without any marker line although bars were given is not "outside the domain": it is judged)
+                if ml and not in_domain(alllens, B, opens):         # (the entry lengths are the same for a twin track)
                     skipped += 1
                     ctx.case(("tab-skip", i), nontrivial=False)
                     continue
